@@ -8,9 +8,30 @@ NS = 10 ** 9
 GRACE = 5 * NS
 
 
+def near_miss(rng, refid):
+    """a reference id that differs from [refid] only slightly: letter case, position of NUL
+    padding, byte order, one bit - "the PHC term is added exactly when the ids are equal" """
+    b = list(refid.to_bytes(4, "big"))
+    k = rng.randrange(5)
+    if k == 0:
+        b = [x ^ 0x20 if chr(x).isalpha() else x for x in b]
+    elif k == 1:
+        r = rng.randrange(1, 4)
+        b = b[r:] + b[:r]
+    elif k == 2:
+        b = b[::-1]
+    elif k == 3:
+        nz = [x for x in b if x != 0]
+        b = ([0] * (4 - len(nz)) + nz) if b[-1] == 0 or b[0] != 0 else (nz + [0] * (4 - len(nz)))
+    v = int.from_bytes(bytes(b), "big")
+    if k == 4 or v == refid:
+        v = refid ^ (1 << rng.randrange(31))
+    return v
+
+
 def gen_script(rng):
     start = rng.randrange(10, 10 ** 6) * NS + rng.randrange(NS)
-    cfg = rng.choice([-1, -1, 0x50484330, rng.randrange(2 ** 31)])
+    cfg = rng.choice([-1, -1, 0x50484330, 0x70686330, 0x50484300, 0x00504843, rng.randrange(2 ** 31)])
     n = rng.randrange(1, 9)
     t = start + rng.randrange(0, 3 * NS)
     last_good = start - GRACE
@@ -19,7 +40,7 @@ def gen_script(rng):
         mode = rng.choice([1, 1, 1, 0, 2, 3, 3])
         d = rng.choice([0, 1000, 10 ** 6, 10 ** 8, 2 * NS])
         e = rng.choice([0, 0, 1, 1000])
-        refid = cfg if (cfg >= 0 and rng.random() < 0.6) else rng.randrange(2 ** 31)
+        refid = cfg if (cfg >= 0 and rng.random() < 0.5) else (near_miss(rng, cfg) if (cfg >= 0 and rng.random() < 0.6) else rng.randrange(2 ** 31))
         phc = rng.choice([-1, -1, 0, 12345, rng.randrange(10 ** 6)])
         tag = rng.randrange(1, 60000)
         if mode != 1 and rng.random() < 0.7:
